@@ -26,6 +26,10 @@ Proof. exact C11.Proofs.unmarshal_no_panic. Qed.
 Theorem apk_v2_parse_no_panic : forall vok n sig_loc dir_loc gap p, all_bytes gap = true -> 0 <= n -> dir_loc <= n ->
   (0 <= sig_loc <= dir_loc -> zlen gap = dir_loc - sig_loc) -> apk_v2_parse vok n sig_loc dir_loc gap <> Panic p.
 Proof. exact C11.Proofs.apk_v2_parse_no_panic. Qed.
+(* apkSigner.Verify: indexing the computed digests by the position of the signed digest entries (any list of hash functions,
+   duplicates included) — rests on the merkle hasher returning one digest per REQUESTED entry, which the harness checks on the real code *)
+Theorem verify_digests_no_panic : forall hashes p, verify_digests hashes <> Panic p.
+Proof. exact C11.Proofs.verify_digests_no_panic. Qed.
 (* zipslicer.ReadWithDirectory (the byte-level model of C17): no panic, and the entry loop never runs out of fuel *)
 Theorem zip_directory_no_panic : forall size cd p, C17.Model.read_with_directory size cd <> Panic p.
 Proof. exact C11.Proofs.zip_directory_no_panic. Qed.
